@@ -519,7 +519,8 @@ def r3(cx):
 
     # TrapSet::enter_subshell: which option for which signal
     fn2 = 'yash_env::trap::TrapSet::enter_subshell'
-    b2 = F.main_body(fn2)
+    b2 = F.inlined(F.main_body(fn2), lambda callee: callee.startswith('yash_env::trap::TrapSet::') and
+                   (F.fns.get(callee) or {}).get('vis') != 'pub')       # an extracted option-selection helper is inlined
     cx.fn(b2.fn)
     du2 = Q.DefUse(b2)
     aggs = Q.find_aggregates(b2, ESO)
